@@ -161,11 +161,13 @@ func (s *Set) Check(op string, params Parameters) error {
 	var ret error
 	for {
 		d := s.match(op, params)
+		verifPoint("matched", op, params)
 		if d == nil {
 			return nil
 		}
 
 		remaining := atomic.AddInt64(&d.Count, -1)
+		verifPoint("decremented", op, params)
 		if remaining <= 0 {
 			prune = true
 			// match will have checked this, but might race with another decrementing
@@ -187,6 +189,7 @@ func (s *Set) Check(op string, params Parameters) error {
 		ret = d.OnFault(dd, params)
 		break
 	}
+	verifPoint("decided", op, params)
 	if prune {
 		// don't wait for the prune
 		go s.prune()
